@@ -412,3 +412,27 @@ Definition poll_ok (c : cfg) (polls : list (nat * bool)) : bool :=
   forallb (fun p => Nat.eqb (fst p) (length (pubkeys s)) && Bool.eqb (snd p) (completeb c s)) polls.
 (* the property's predicate on the observation: a poll at which a signing key was not published *)
 Definition poll_violates (polls : list (nat * bool)) : bool := existsb (fun p => negb (snd p)) polls.
+
+(* ------------------------------------------------------------------ the auto-unseal path, observed (case file) *)
+(* tryAwsUnseal hands the stored secret to unsealCA (no TLS gate on this path); when the secret cannot be
+   fetched or lacks the configured key unsealCA is not reached (handed = None) *)
+Definition auto_state (c : cfg) (handed : option bs) : state :=
+  match handed with Some p => fst (unseal_ca c (sealed_init c) p) | None => sealed_init c end.
+
+Definition auto_case_ok (c : cfg) (handed : option bs) (ob : N * (bool * bool * nat * nat * nat * bool)) : bool :=
+  let s := auto_state c handed in
+  let '(rz, (s1, e1, n1, p1, y1, o1)) := ob in
+  let '(s2, e2, n2, p2, y2, o2) := observe s in
+  (rz =? readyz s) && Bool.eqb s1 s2 && Bool.eqb e1 e2 && Nat.eqb n1 n2 && Nat.eqb p1 p2 && Nat.eqb y1 y2 && Bool.eqb o1 o2.
+
+(* the property's predicate on the observation: unsealed although the secret does not decrypt and load every
+   configured key file (c09_auto_unseal_only_right_pass), or still sealed but not as it was
+   (c09_auto_unseal_refused_unchanged) *)
+Definition auto_good (c : cfg) (p : bs) : bool :=
+  bs_eqb p (right_pass c) && main_ok c && role_ok c &&
+  match ed_file c with Some (pe, _, r) => bs_eqb p pe && file_ok r | None => true end.
+Definition auto_case_violates (c : cfg) (handed : option bs) (ob : N * (bool * bool * nat * nat * nat * bool)) : bool :=
+  let '(rz, (sg, e, nca, npub, rdy, role)) := ob in
+  let good := match handed with Some p => auto_good c p | None => false end in
+  (sg && negb good) ||
+  (negb sg && (e || role || negb (Nat.eqb nca 0) || negb (Nat.eqb rdy 0) || negb (Nat.eqb npub (length (extra_pubkeys c))) || negb (rz =? 503))).
